@@ -170,6 +170,10 @@ def build(reg):
             "implies(not %s, ghost.last_key == old(ghost.last_key))" % MASKED],
         **common)
 
+    # ---------------------------------------------------------------- the streaming send API (shared with C05)
+    from . import ws_streaming
+    ws_streaming.build(reg, standalone=False)
+
     # ---------------------------------------------------------------- processData, payload arm (inside a frame)
     # The frame hooks are abstracted here (what they do with the octets is their own contract, C02 / C16): this unit
     # decides how many octets are consumed, that they are unmasked with the running key offset, and when the frame ends.
@@ -250,6 +254,11 @@ def extra_checks(tier, seed):
         out.append(Rp.native_crosscheck("C01/bounded/framing-boundary-cases", _HARNESS,
                                         "payload lengths around 125 / 126 / 65535 / 65536, all read boundaries of short frames, "
                                         "both roles, chopped and synchronous sends, against an independent RFC 6455 reference"))
+        from . import ws_pair_harness as H
+        for mode, what in (("messages", "message sequences with / without permessage-deflate, 5 fragment sizes, send limits"),
+                           ("streaming", "the streaming send API, frame lengths at the 7 / 16 / 64-bit boundaries")):
+            out.append(Rp.native_crosscheck("C01/bounded/real-pair-" + mode, H.HARNESS % {"mode": mode},
+                                            what + "; real client / server pair back to back"))
     return out
 
 
@@ -381,6 +390,12 @@ def replay(o):
     unit = o.get("unit") or o.get("name", "")
     fam = ("sendFrame" if "sendFrame" in unit else "processData[payload]" if "processData[payload]" in unit else
            "sendData/_send" if ("sendData" in unit or "._send" in unit or "_trigger" in unit) else None)
+    if fam is None and any(k in unit for k in ("beginMessage", "sendMessageFrame", "endMessage")):
+        from . import ws_pair_harness
+        return ws_pair_harness.run("streaming")
+    if fam is None and "sendMessage" in unit:
+        from . import ws_pair_harness
+        return ws_pair_harness.run("messages")
     if fam is None:
         return {"reproduced": False, "detail": "no replay harness for this unit"}
     out = Rp.run_py(_HARNESS, timeout=300)
